@@ -257,3 +257,8 @@ Definition index_multi (c : cfg) (n : Z) (us : list sub) : res (list Z) := seqM 
 Definition modelica_multi (n : Z) (us : list sub) : res (list Z) := seqM (map (modelica n) us).
 Definition check_multi (c : cfg) (x : Z * list sub * Z * list Z) : bool :=
   let '(n, us, kind, sel) := x in obs_eq (index_multi c n us) kind sel.
+
+(* for-statement in a function body (exitForStatement uses the same ForLoop / register_indexed_symbol):
+   only the multiset of selected elements is observable (sum of weighted elements), so compare sorted *)
+Definition check_func (c : cfg) (x : Z * sub * Z * list Z) : bool :=
+  let '(n, u, kind, sel) := x in obs_eq (rmap sortZ (index c n u)) kind sel.
